@@ -16,6 +16,10 @@ from fractions import Fraction
 
 import z3
 
+# z3 5.1's Diophantine-equation pass of the LIA solver can run for many minutes inside one
+# final check without honouring the timeout (seen on a bounded counterexample search): off
+z3.set_param("lp.dio", False)
+
 # ---------------------------------------------------------------------------------------
 # exceptions
 
